@@ -174,6 +174,11 @@ func monitor(rep *emit.Report, c *caseRun) {
 					}
 				}
 			}
+			// C03: a partial that does not verify for exactly the (round, previous signature) it is
+			// labelled with, under the polynomial the node uses, is refused (never cached, never counted)
+			if !s.obs.Rejected && !s.obs.Valid && s.ev.Round > s.obs.HeadBefore {
+				rep.Fail("C03-invalid-partial-accepted", fmt.Sprintf("a partial that does not verify for round %d and the previous signature it carries (mutation %q) was not refused", s.ev.Round, s.ev.Mut), in)
+			}
 			if !s.obs.Rejected && s.obs.Valid && w.Epochs[epoch].IsMember(s.ev.Claim) && s.ev.Claim != w.Epochs[epoch].Me {
 				addContrib(s.obs.HeadBefore, int64(s.ev.Round), c.t.id(s.obs.PrevBytes), s.ev.Claim, s.obs.SigBytes, s.obs.PrevBytes)
 			}
